@@ -66,10 +66,11 @@ var assumptions = []string{
 
 const (
 	// known defect classes, excluded by construction so that the search continues behind them
-	exclRootMathTyped  = true // K1
-	exclRespecialise   = true // K2
-	exclNestedLambda   = true // K3
-	exclUnaryMinusBool = true // K4
+	exclStuck            = true  // K1
+	exclRespecialise     = true  // K2
+	exclNestedLambda     = true  // K3
+	exclUnaryMinus       = true  // K4
+	exclNestedTypeChange = true  // K5
 )
 
 func genWith(r *kit.Rec) func(t *rapid.T) Case {
@@ -234,40 +235,57 @@ func (g *genCtx) targeted() (*Tree, map[string][]VT) {
 }
 
 // ---------------------------------------------------------------- defect classes
+//
+// Known genuine defects (witnesses under replays/C04). Each class has a detector over the
+// Case; sanitize() rewrites a generated case so that it is outside the class (counted as
+// excluded by construction), classify() gives a failing case of the class its signature.
+//
+//	K1 eval/binary-operator-stuck-after-failed-respecialisation
+//	K2 eval/stateful-restepped-on-respecialise
+//	K3 eval/nested-lambda-state-shared-across-groups
+//	K4 eval/unary-minus-on-non-numeric
+//	K5 eval/nested-operator-type-change-not-respecialised
 
-type stepTypes struct {
-	types []map[*Tree]VT // per step: static type of every node (absent: ill-typed there)
-}
-
-func nodeTypes(root *Tree, bind map[string]SV) map[*Tree]VT {
-	env := func(n string) VT {
+func stepEnv(bind map[string]SV) func(string) VT {
+	return func(n string) VT {
 		sv, ok := bind[n]
 		if !ok {
 			return tInvalid
 		}
 		return vtOf(sv.T) // "unset" -> tInvalid
 	}
-	m := map[*Tree]VT{}
-	root.walk(func(n *Tree) {
-		if vt, ok := staticType(n, env); ok {
-			m[n] = vt
-		} else if n.K == "ref" {
-			m[n] = env(n.S)
-		}
-	})
-	return m
 }
 
-// riskyMathNodes: math binary nodes with a stateful function beneath them whose operand
-// types are not the same at every step (class K2).
-func riskyMathNodes(c *Case) []*Tree {
-	var out []*Tree
+// perStepTypes: for every step the static type of every node (absent: ill-typed there).
+func perStepTypes(c *Case) []map[*Tree]VT {
 	var per []map[*Tree]VT
 	for _, s := range c.Steps {
-		per = append(per, nodeTypes(c.Tree, s.Bind))
+		env := stepEnv(s.Bind)
+		m := map[*Tree]VT{}
+		c.Tree.walk(func(n *Tree) {
+			if vt, ok := staticType(n, env); ok {
+				m[n] = vt
+			} else if n.K == "ref" {
+				m[n] = env(n.S)
+			}
+		})
+		per = append(per, m)
 	}
+	return per
+}
+
+func isMathBin(n *Tree) bool { return n.K == "bin" && isMathOp(n.S) }
+func isCmpBin(n *Tree) bool {
+	return n.K == "bin" && !isMathOp(n.S) && n.S != "AND" && n.S != "OR"
+}
+
+// k2Nodes: math operators with a stateful function beneath them whose operand types are
+// not the same at every step.
+func k2Nodes(c *Case) []*Tree {
+	var out []*Tree
+	per := perStepTypes(c)
 	c.Tree.walk(func(n *Tree) {
-		if n.K != "bin" || !isMathOp(n.S) || !n.hasStateful() {
+		if !isMathBin(n) || !n.hasStateful() {
 			return
 		}
 		for i := 1; i < len(per); i++ {
@@ -280,7 +298,54 @@ func riskyMathNodes(c *Case) []*Tree {
 	return out
 }
 
-func rootIsMath(t *Tree) bool { return t.K == "bin" && isMathOp(t.S) }
+// k5Nodes: math operators with a math operator as direct operand whose type is duration or
+// string at one step and something else at another.
+func k5Nodes(c *Case) []*Tree {
+	var out []*Tree
+	per := perStepTypes(c)
+	c.Tree.walk(func(n *Tree) {
+		if !isMathBin(n) {
+			return
+		}
+		for _, ch := range n.A {
+			if !isMathBin(ch) {
+				continue
+			}
+			seen := map[VT]bool{}
+			for _, m := range per {
+				seen[m[ch]] = true
+			}
+			if len(seen) > 1 && (seen[tDur] || seen[tString]) {
+				out = append(out, n)
+				return
+			}
+		}
+	})
+	return out
+}
+
+// k4Nodes: unary minus whose operand is bool, string, time or regex at some step.
+func k4Nodes(c *Case) []*Tree {
+	var out []*Tree
+	per := perStepTypes(c)
+	bad := func(vt VT) bool { return oneOf(vt, tBool, tString, tTime, tRegex) }
+	c.Tree.walk(func(n *Tree) {
+		if n.K != "un" || n.S != "-" {
+			return
+		}
+		if vt, known, _ := constType(n.A[0]); known && bad(vt) {
+			out = append(out, n)
+			return
+		}
+		for _, m := range per {
+			if bad(m[n.A[0]]) {
+				out = append(out, n)
+				return
+			}
+		}
+	})
+	return out
+}
 
 func hasTypeChange(c *Case) bool {
 	refs := c.Tree.refs()
@@ -320,71 +385,91 @@ func groupsUsed(c *Case) int {
 	return len(m)
 }
 
-// unaryMinusOnBool: a unary minus whose operand is boolean at some step (class K4).
-func unaryMinusOnBool(c *Case) []*Tree {
-	var out []*Tree
-	var per []map[*Tree]VT
-	for _, s := range c.Steps {
-		per = append(per, nodeTypes(c.Tree, s.Bind))
-	}
-	c.Tree.walk(func(n *Tree) {
-		if n.K != "un" || n.S != "-" {
-			return
-		}
-		if vt, known, _ := constType(n.A[0]); known && vt == tBool {
-			out = append(out, n)
-			return
-		}
-		for _, m := range per {
-			if m[n.A[0]] == tBool {
-				out = append(out, n)
-				return
-			}
+func hasMathBin(t *Tree) bool {
+	found := false
+	t.walk(func(n *Tree) {
+		if isMathBin(n) {
+			found = true
 		}
 	})
-	return out
+	return found
+}
+
+// k1Step: an entry that evaluates a math operator through a specialised parent without the
+// types having been refreshed by Type(): Eval<T> without Type() on a root math operator, or
+// Eval<T != bool> (with or without Type()) on a root comparison over a math operator.
+func k1Step(root *Tree, entry, x string) bool {
+	if entry == "eval" {
+		return false
+	}
+	if isMathBin(root) {
+		return entry == "typed"
+	}
+	return isCmpBin(root) && hasMathBin(root) && x != "bool"
+}
+
+func pinNames(c *Case, nodes []*Tree) {
+	pin := map[string]bool{}
+	for _, n := range nodes {
+		for r := range n.refs() {
+			pin[r] = true
+		}
+	}
+	for i := 1; i < len(c.Steps); i++ {
+		for r := range pin {
+			if c.Steps[i].Bind[r].T != c.Steps[0].Bind[r].T {
+				c.Steps[i].Bind[r] = c.Steps[0].Bind[r]
+			}
+		}
+	}
 }
 
 // sanitize removes the known defect classes from a generated case (counted by the caller).
 func sanitize(c *Case) []string {
 	var ex []string
-	if exclUnaryMinusBool {
-		if ns := unaryMinusOnBool(c); len(ns) > 0 {
-			for _, n := range ns {
-				n.S = "!"
+	if exclUnaryMinus {
+		if ns := k4Nodes(c); len(ns) > 0 {
+			for len(ns) > 0 {
+				n := ns[0]
+				*n = *n.A[0]
+				ns = k4Nodes(c)
 			}
-			ex = append(ex, "K4 unary minus over a boolean operand (operator replaced by !)")
+			ex = append(ex, "K4 unary minus over a bool/string/time/regex operand (operator dropped)")
 		}
 	}
 	if exclRespecialise {
-		if ns := riskyMathNodes(c); len(ns) > 0 {
-			// pin every name below such a node to its first binding kind
-			pin := map[string]bool{}
-			for _, n := range ns {
-				for r := range n.refs() {
-					pin[r] = true
-				}
-			}
-			for i := 1; i < len(c.Steps); i++ {
-				for r := range pin {
-					if c.Steps[i].Bind[r].T != c.Steps[0].Bind[r].T {
-						c.Steps[i].Bind[r] = c.Steps[0].Bind[r]
-					}
-				}
-			}
+		if ns := k2Nodes(c); len(ns) > 0 {
+			pinNames(c, ns)
 			ex = append(ex, "K2 math operator over a stateful function with operand types changing between evaluations (names pinned to one type)")
 		}
 	}
-	if exclRootMathTyped && rootIsMath(c.Tree) {
+	if exclNestedTypeChange {
+		if ns := k5Nodes(c); len(ns) > 0 {
+			pinNames(c, ns)
+			ex = append(ex, "K5 math operator whose math-operator operand changes type from/to duration or string (names pinned to one type)")
+		}
+	}
+	if exclStuck {
 		n := 0
 		for i := range c.Steps {
-			if c.Steps[i].Entry == "typed" {
-				c.Steps[i].Entry = "type+typed"
+			s := &c.Steps[i]
+			if s.Entry == "eval" {
+				continue
+			}
+			if isMathBin(c.Tree) && s.Entry == "typed" {
+				s.Entry = "type+typed"
+				n++
+			}
+			if isCmpBin(c.Tree) && hasMathBin(c.Tree) && (s.X != "bool" || s.FX != "bool") {
+				if s.X != "" && s.X != "bool" {
+					s.X = "bool"
+				}
+				s.FX = "bool"
 				n++
 			}
 		}
 		if n > 0 {
-			ex = append(ex, "K1 Eval<T> without Type() on a root math operator (entry replaced by Type()+Eval<T>)")
+			ex = append(ex, "K1 math operator evaluated through a specialised parent without Type() (root math: Type() added; root comparison: Eval<bool> only)")
 		}
 	}
 	if exclNestedLambda && groupsUsed(c) > 1 && nestedStateful(c.Tree) {
@@ -431,17 +516,23 @@ func faultsToEval(c *Case) int {
 	return n
 }
 
-// classify names the known defect class a failing case belongs to ("" = none).
-func classify(c *Case) string {
+// classify names the known defect class a failing case belongs to ("" = none). xs: the
+// requested types of the steps executed so far.
+func classify(c *Case, xs []string) string {
 	switch {
-	case len(unaryMinusOnBool(c)) > 0:
-		return "eval/unary-minus-on-bool"
-	case len(riskyMathNodes(c)) > 0:
+	case len(k4Nodes(c)) > 0:
+		return "eval/unary-minus-on-non-numeric"
+	case len(k2Nodes(c)) > 0:
 		return "eval/stateful-restepped-on-respecialise"
 	case groupsUsed(c) > 1 && nestedStateful(c.Tree):
 		return "eval/nested-lambda-state-shared-across-groups"
-	case rootIsMath(c.Tree) && hasEntry(c, "typed"):
-		return "eval/root-math-operator-stuck-after-type-change"
+	case len(k5Nodes(c)) > 0:
+		return "eval/nested-operator-type-change-not-respecialised"
+	}
+	for i, s := range c.Steps {
+		if i < len(xs) && xs[i] != "" && k1Step(c.Tree, s.Entry, xs[i]) {
+			return "eval/binary-operator-stuck-after-failed-respecialisation"
+		}
 	}
 	return ""
 }
@@ -702,8 +793,9 @@ func run(c Case, cc *kit.Case) {
 		cc.Label("rejected-at-compile-time")
 		return
 	}
+	xs := make([]string, len(c.Steps)) // requested type of typed entries, per executed step
 	fail := func(generic string, format string, args ...any) {
-		sig := classify(&c)
+		sig := classify(&c, xs)
 		if sig == "" {
 			sig = generic
 		}
@@ -724,7 +816,6 @@ func run(c Case, cc *kit.Case) {
 	dead := map[int]bool{}
 	labels := map[string]int{}
 	outs := make([]outcome, len(c.Steps))
-	xs := make([]string, len(c.Steps))
 	stepErr, stepOK := false, false
 
 	for i, s := range c.Steps {
